@@ -49,6 +49,11 @@ def create (s : S) (j : Bool) : S × Nat × Nat :=
   ({ s with handles := s.handles ++ [{ refs := 2, joinable := j }], nThreads := t + 1,
             threadHandle := store s.threadHandle t h, ours := t :: s.ours }, t, h)
 
+/-- a creation that fails (NULL): no thread, no handle for anybody; the block the call needed meanwhile takes a handle
+    id and is released again before the call returns -/
+def createFailed (s : S) : S × Nat :=
+  ({ s with handles := s.handles ++ [{ refs := 0, joinable := false, live := false }] }, s.handles.length)
+
 def spawn (s : S) : S × Nat := ({ s with nThreads := s.nThreads + 1 }, s.nThreads)
 
 def ref (s : S) (h : Nat) : S := s.modH h fun x => { x with refs := x.refs + 1 }
